@@ -29,6 +29,8 @@ CONSTANTS Peers,       \* e.g. {"p1", "p2"}
           MaxPerPeer,  \* connection ids per peer
           MaxOverlap,  \* connections per peer the manager admits at once (2 = in scope)
           MaxOpens, MaxInb, MaxFc, MaxExp,   \* bounds on open_substream / inbound / force_close / expiry
+          MaxFull,     \* bound on substream results handed to a protocol whose inbox is full
+          PCap,        \* capacity of a protocol inbox (DEFAULT_CHANNEL_SIZE = 4096)
           Eager,       \* services that are polled as soon as their inbox is non-empty
           EagerCmd,    \* connections read a queued command before anything else happens
           SplitClose,  \* explore the window between report_connection_closed and the task going away
@@ -45,11 +47,12 @@ VARIABLES cst,     \* c -> "live" | "closing" | "dead"   (DOMAIN = ids handed ou
           nextId,  \* shared substream id allocator
           dead,    \* a service panicked
           mgr,     \* connections whose closure the manager has been told of (Bug = "mgr_first")
-          cnt,     \* [opens, inb, fc, exp] counters for the bounds
+          cnt,     \* [opens, inb, fc, exp, full] counters for the bounds
+          blk,     \* c -> NoBlk or the event a suspended report_substream_open* call is waiting to send
           KA,      \* q -> BOOL: SubstreamKeepAlive::Yes (fixed in Init)
           mon, hist, out
 
-mvars == <<cst, cpeer, cmdq, pend, chan, conns, track, nextId, dead, mgr, cnt, KA>>
+mvars == <<cst, cpeer, cmdq, pend, chan, conns, track, nextId, dead, mgr, cnt, blk, KA>>
 vars == <<mvars, mon, hist, out>>
 
 KADef == {[q \in Svc |-> q = 0]}
@@ -57,6 +60,7 @@ KAAll == {[q \in Svc |-> TRUE]}
 KANone == {[q \in Svc |-> FALSE]}
 KAAny == [Svc -> BOOLEAN]
 NoEager == {}
+NoBlk == [k |-> "none"]
 NoCtx == [pri |-> 0, priA |-> FALSE, sec |-> 0, secA |-> FALSE]
 Dir(c) == IF c % 2 = 1 THEN "in" ELSE "out"
 SvcSeq == SetToSortSeq(Svc, <)
@@ -67,7 +71,8 @@ Init ==
   /\ conns = [q \in Svc |-> [p \in Peers |-> NoCtx]]
   /\ track = [q \in Svc |-> {}]
   /\ nextId = 0 /\ dead = FALSE /\ mgr = {}
-  /\ cnt = [opens |-> 0, inb |-> 0, fc |-> 0, exp |-> 0]
+  /\ cnt = [opens |-> 0, inb |-> 0, fc |-> 0, exp |-> 0, full |-> 0]
+  /\ blk = <<>>
   /\ KA \in KAs
   /\ mon = MonInit /\ hist = <<>> /\ out = [ret |-> [k |-> "none"], panic |-> FALSE]
 
@@ -86,6 +91,16 @@ Strong(c) ==
     Cardinality({q \in Svc : (conns[q][p].pri = c /\ conns[q][p].priA) \/ (conns[q][p].sec = c /\ conns[q][p].secA)})
   + FoldSet(LAMBDA q, acc : acc + Count(chan[q], LAMBDA e : e.k \in {"est", "opened"} /\ e.c = c), 0, Svc)
   + (IF Alive(c) THEN Count(cmdq[c], LAMBDA x : x.k = "open") + Cardinality(pend[c]) ELSE 0)
+  + (IF c \in DOMAIN blk /\ blk[c].k = "opened" THEN 1 ELSE 0)
+
+\* Inbox occupancy.  A `full` delivery is preceded by filler that takes every free slot; a run of
+\* filler is one entry [k |-> "filler", n |-> run length] which the protocol skips silently.
+PhysLen(q) == FoldLeft(LAMBDA acc, e : acc + (IF e.k = "filler" THEN e.n ELSE 1), 0, chan[q])
+Waiting(q) == \E c \in DOMAIN blk : blk[c].k # "none" /\ blk[c].q = q
+\* a new sender gets a slot at once: there is one and nobody is queued for it
+Room(q) == PhysLen(q) < PCap /\ ~Waiting(q)
+RoomAll == \A q \in Svc : Room(q)
+Busy(c) == blk[c].k # "none"
 
 -----------------------------------------------------------------------------
 (* TransportService::poll_next, first loop: consume the inbox until an entry yields an event  *)
@@ -124,6 +139,7 @@ Proc(q, ch, cn, tr) ==
                     ELSE cn IN
          [ch |-> rest, cn |-> cn1, tr |-> IF ka THEN tr \cup {<<e.p, e.c>>} ELSE tr,
           ev |-> [k |-> "opened", p |-> e.p, q |-> e.q, dirn |-> e.dirn, id |-> e.id], panic |-> FALSE]
+    [] e.k = "filler" -> Proc(q, rest, cn, tr)
     [] e.k = "failed" ->
          IF Bug = "answer_lost" THEN Proc(q, rest, cn, tr)
          ELSE [ch |-> rest, cn |-> cn, tr |-> tr, ev |-> [k |-> "failed", id |-> e.id], panic |-> FALSE]
@@ -135,7 +151,7 @@ Poll(q) ==
      /\ conns' = [conns EXCEPT ![q] = r.cn]
      /\ track' = [track EXCEPT ![q] = r.tr]
      /\ dead' = r.panic
-     /\ UNCHANGED <<cst, cpeer, cmdq, pend, nextId, mgr, cnt>>
+     /\ UNCHANGED <<cst, cpeer, cmdq, pend, nextId, mgr, cnt, blk>>
      /\ Handle([a |-> "poll", q |-> q], r.ev, r.panic)
 
 \* the keep-alive timeout of (p, c) elapses at service q.  poll_next reaches the keep-alive loop
@@ -146,7 +162,7 @@ Expire(q, p, c) ==
   /\ conns' = [conns EXCEPT ![q][p] =
         IF @.pri = c THEN [@ EXCEPT !.priA = FALSE] ELSE IF @.pri # 0 /\ @.sec = c THEN [@ EXCEPT !.secA = FALSE] ELSE @]
   /\ cnt' = [cnt EXCEPT !.exp = @ + 1]
-  /\ UNCHANGED <<cst, cpeer, cmdq, pend, chan, nextId, dead, mgr>>
+  /\ UNCHANGED <<cst, cpeer, cmdq, pend, chan, nextId, dead, mgr, blk>>
   /\ Handle([a |-> "expire", q |-> q, p |-> p, c |-> c], [k |-> "ok", pev |-> [k |-> "pending"]], FALSE)
 
 -----------------------------------------------------------------------------
@@ -156,7 +172,7 @@ Open(q, p) ==
   LET x == conns[q][p] c == x.pri stim == [a |-> "open", q |-> q, p |-> p] IN
   /\ cnt.opens < MaxOpens
   /\ cnt' = [cnt EXCEPT !.opens = @ + 1]
-  /\ UNCHANGED <<cst, cpeer, pend, chan, dead, mgr>>
+  /\ UNCHANGED <<cst, cpeer, pend, chan, dead, mgr, blk>>
   /\ IF c = 0 THEN
           UNCHANGED <<cmdq, conns, track, nextId>> /\ Handle(stim, [k |-> "err", err |-> "PeerDoesNotExist"], FALSE)
      ELSE IF ~(x.priA \/ Strong(c) > 0) THEN    \* try_get_permit: the weak sender cannot be upgraded
@@ -181,7 +197,7 @@ FClose(q, p) ==
   /\ LET q1 == IF x.sec # 0 /\ CanSend(x.sec, x.secA) THEN [cmdq EXCEPT ![x.sec] = Append(@, [k |-> "force"])] ELSE cmdq
          okp == CanSend(x.pri, x.priA) IN
      /\ cmdq' = IF okp THEN [q1 EXCEPT ![x.pri] = Append(@, [k |-> "force"])] ELSE q1
-     /\ UNCHANGED <<cst, cpeer, pend, chan, conns, track, nextId, dead, mgr>>
+     /\ UNCHANGED <<cst, cpeer, pend, chan, conns, track, nextId, dead, mgr, blk>>
      /\ Handle([a |-> "fclose", q |-> q, p |-> p], [k |-> IF okp THEN "ok" ELSE "err"], FALSE)
 
 -----------------------------------------------------------------------------
@@ -196,6 +212,8 @@ Est(p) ==
   /\ c <= MaxCid
   /\ Cardinality({d \in DOMAIN cst : cpeer[d] = p}) < MaxPerPeer
   /\ Cardinality(Admitted(p)) < MaxOverlap
+  /\ RoomAll                       \* otherwise report_connection_established would be suspended
+  /\ blk' = (c :> NoBlk) @@ blk
   /\ cst' = (c :> "live") @@ cst /\ cpeer' = (c :> p) @@ cpeer
   /\ cmdq' = (c :> <<>>) @@ cmdq /\ pend' = (c :> {}) @@ pend
   /\ chan' = [q \in Svc |-> Append(chan[q], [k |-> "est", p |-> p, c |-> c])]
@@ -206,12 +224,12 @@ Est(p) ==
 \* clog = q: the harness makes the call block on protocol q and looks at the manager channel
 \* meanwhile (same transition, different observation).
 Close(c, clog) ==
-  /\ cst[c] = "live"
+  /\ cst[c] = "live" /\ ~Busy(c) /\ RoomAll
   /\ (clog # -1 => Clog /\ clog \in Svc /\ chan[clog] = <<>>)
   /\ cst' = [cst EXCEPT ![c] = "closing"]
   /\ chan' = [q \in Svc |-> Append(chan[q], [k |-> "closed", p |-> cpeer[c], c |-> c])]
   /\ mgr' = mgr \cup {c}
-  /\ UNCHANGED <<cpeer, cmdq, pend, conns, track, nextId, dead, cnt>>
+  /\ UNCHANGED <<cpeer, cmdq, pend, conns, track, nextId, dead, cnt, blk>>
   /\ Handle([a |-> "close", c |-> c, p |-> cpeer[c], clog |-> clog],
             [k |-> "ok", early |-> FALSE, mgr |-> 1, told |-> SvcSeq], FALSE)
 
@@ -219,23 +237,23 @@ Close(c, clog) ==
 MgrTold(c) ==
   /\ Bug = "mgr_first" /\ cst[c] = "live" /\ c \notin mgr
   /\ mgr' = mgr \cup {c}
-  /\ UNCHANGED <<cst, cpeer, cmdq, pend, chan, conns, track, nextId, dead, cnt>>
+  /\ UNCHANGED <<cst, cpeer, cmdq, pend, chan, conns, track, nextId, dead, cnt, blk>>
   /\ Handle([a |-> "mgrtold", c |-> c], [k |-> "ok"], FALSE)
 
 \* the connection task ends: ProtocolSet (command receiver, unanswered requests, permits) dropped
 Drop(c) ==
-  /\ cst[c] = "closing"
+  /\ cst[c] = "closing" /\ ~Busy(c)
   /\ cst' = [cst EXCEPT ![c] = "dead"]
   /\ cmdq' = [cmdq EXCEPT ![c] = <<>>] /\ pend' = [pend EXCEPT ![c] = {}]
-  /\ UNCHANGED <<cpeer, chan, conns, track, nextId, dead, mgr, cnt>>
+  /\ UNCHANGED <<cpeer, chan, conns, track, nextId, dead, mgr, cnt, blk>>
   /\ LET opens == SelectSeq(cmdq[c], LAMBDA x : x.k = "open") IN
      Handle([a |-> "drop", c |-> c],
             [k |-> "ok", unread |-> [i \in 1..Len(opens) |-> [q |-> opens[i].q, id |-> opens[i].id]]], FALSE)
 
 \* the connection polls its ProtocolSet once
 Cmd(c) ==
-  /\ cst[c] = "live"
-  /\ UNCHANGED <<cst, cpeer, chan, conns, track, nextId, dead, mgr, cnt>>
+  /\ cst[c] = "live" /\ ~Busy(c)
+  /\ UNCHANGED <<cst, cpeer, chan, conns, track, nextId, dead, mgr, cnt, blk>>
   /\ IF cmdq[c] # <<>> THEN
           LET x == Head(cmdq[c]) IN
           /\ cmdq' = [cmdq EXCEPT ![c] = Tail(@)]
@@ -247,31 +265,62 @@ Cmd(c) ==
           /\ UNCHANGED <<cmdq, pend>>
           /\ Handle([a |-> "cmd", c |-> c], [k |-> "none"], FALSE)
 
+\* Hand event `ev` for protocol q to its inbox: ProtocolSet::report_substream_open /
+\* report_substream_open_failure, i.e. `tx.send(event).await`.
+\*  full = FALSE: there is room, the call returns at once.
+\*  full = TRUE : every free slot of the inbox has just been taken (filler): the call is suspended
+\*                inside the connection task until the protocol has consumed something (Deliver).
+Send(c, q, ev, full, stim) ==
+  IF ~full THEN
+       /\ Room(q)
+       /\ chan' = [chan EXCEPT ![q] = Append(@, ev)]
+       /\ UNCHANGED blk
+       /\ cnt' = IF stim.a = "inbound" THEN [cnt EXCEPT !.inb = @ + 1] ELSE cnt
+       /\ Handle(stim, [k |-> "ok"], FALSE)
+  ELSE /\ cnt.full < MaxFull /\ ~Waiting(q)
+       /\ cnt' = IF stim.a = "inbound" THEN [cnt EXCEPT !.inb = @ + 1, !.full = @ + 1] ELSE [cnt EXCEPT !.full = @ + 1]
+       /\ chan' = IF PhysLen(q) < PCap THEN [chan EXCEPT ![q] = Append(@, [k |-> "filler", n |-> PCap - PhysLen(q)])] ELSE chan
+       /\ IF Bug = "drop_on_full"
+            THEN \* seeded defect: try_send instead of send().await - the event is shed
+                 UNCHANGED blk /\ Handle(stim, [k |-> "err"], FALSE)
+            ELSE blk' = [blk EXCEPT ![c] = ev @@ [q |-> q]] /\ Handle(stim, [k |-> "blocked"], FALSE)
+
+\* the suspended call of connection c gets its slot
+Deliver(c) ==
+  /\ Busy(c)
+  /\ LET ev == blk[c] q == ev.q IN
+     /\ PhysLen(q) < PCap
+     /\ chan' = [chan EXCEPT ![q] = Append(@, ev)]
+     /\ blk' = [blk EXCEPT ![c] = NoBlk]
+     /\ UNCHANGED <<cst, cpeer, cmdq, pend, conns, track, nextId, dead, mgr, cnt>>
+     /\ Handle([a |-> "deliver", c |-> c, what |-> IF ev.dirn = "in" THEN "inbound" ELSE "reply",
+                 id |-> ev.id, ok |-> ev.k = "opened", q |-> q, p |-> cpeer[c]], [k |-> "ok"], FALSE)
+
 \* report_substream_open / report_substream_open_failure (negotiation finished, failed or timed out)
-Reply(c, x, ok) ==
-  /\ cst[c] = "live" /\ x \in pend[c]
+Reply(c, x, ok, full) ==
+  /\ cst[c] = "live" /\ ~Busy(c) /\ x \in pend[c]
   /\ pend' = [pend EXCEPT ![c] = @ \ {x}]
-  /\ chan' = [chan EXCEPT ![x.q] = Append(@, IF ok
-        THEN [k |-> "opened", p |-> cpeer[c], c |-> c, q |-> x.q, dirn |-> "out", id |-> x.id]
-        ELSE [k |-> "failed", id |-> x.id])]
-  /\ UNCHANGED <<cst, cpeer, cmdq, conns, track, nextId, dead, mgr, cnt>>
-  /\ Handle([a |-> "reply", c |-> c, id |-> x.id, ok |-> ok], [k |-> "ok"], FALSE)
+  /\ UNCHANGED <<cst, cpeer, cmdq, conns, track, nextId, dead, mgr>>
+  /\ Send(c, x.q, IF ok THEN [k |-> "opened", p |-> cpeer[c], c |-> c, q |-> x.q, dirn |-> "out", id |-> x.id]
+                        ELSE [k |-> "failed", id |-> x.id, q |-> x.q, dirn |-> "out"],
+          full, [a |-> "reply", c |-> c, id |-> x.id, ok |-> ok, full |-> full, q |-> x.q])
 
 \* the remote opened a substream for protocol q
-Inbound(c, q) ==
-  /\ cst[c] = "live" /\ cnt.inb < MaxInb
-  /\ cnt' = [cnt EXCEPT !.inb = @ + 1]
+Inbound(c, q, full) ==
+  /\ cst[c] = "live" /\ ~Busy(c) /\ cnt.inb < MaxInb
   /\ UNCHANGED <<cst, cpeer, cmdq, pend, conns, track, nextId, dead, mgr>>
   /\ IF Strong(c) > 0 THEN
-          /\ chan' = [chan EXCEPT ![q] = Append(@, [k |-> "opened", p |-> cpeer[c], c |-> c, q |-> q, dirn |-> "in", id |-> -1])]
-          /\ Handle([a |-> "inbound", c |-> c, q |-> q, p |-> cpeer[c]], [k |-> "ok"], FALSE)
-     ELSE UNCHANGED chan /\ Handle([a |-> "inbound", c |-> c, q |-> q, p |-> cpeer[c]], [k |-> "nopermit"], FALSE)
+          Send(c, q, [k |-> "opened", p |-> cpeer[c], c |-> c, q |-> q, dirn |-> "in", id |-> -1],
+               full, [a |-> "inbound", c |-> c, q |-> q, p |-> cpeer[c], full |-> full])
+     ELSE /\ UNCHANGED <<chan, blk>> /\ cnt' = [cnt EXCEPT !.inb = @ + 1]
+          /\ Handle([a |-> "inbound", c |-> c, q |-> q, p |-> cpeer[c], full |-> full], [k |-> "nopermit"], FALSE)
 
 Normal ==
   \/ \E p \in Peers : Est(p)
   \/ \E c \in DOMAIN cst : Close(c, -1) \/ Drop(c) \/ Cmd(c) \/ MgrTold(c)
-  \/ \E c \in DOMAIN cst : \E q \in Svc : Close(c, q) \/ Inbound(c, q)
-  \/ \E c \in DOMAIN cst : \E x \in pend[c] : Reply(c, x, TRUE) \/ Reply(c, x, FALSE)
+  \/ \E c \in DOMAIN cst : \E q \in Svc : Close(c, q) \/ Inbound(c, q, FALSE) \/ Inbound(c, q, TRUE)
+  \/ \E c \in DOMAIN cst : \E x \in pend[c] : \E ok, full \in BOOLEAN : Reply(c, x, ok, full)
+  \/ \E c \in DOMAIN cst : Deliver(c)
   \/ \E q \in Svc : Poll(q)
   \/ \E q \in Svc : \E p \in Peers : Open(q, p) \/ FClose(q, p)
   \/ \E q \in Svc : \E k \in track[q] : Expire(q, k[1], k[2])
@@ -291,7 +340,7 @@ Spec == Init /\ [][Next]_vars
 -----------------------------------------------------------------------------
 Quiescent ==
   /\ \A q \in Svc : chan[q] = <<>>
-  /\ \A c \in DOMAIN cst : cst[c] # "closing" /\ (cst[c] = "live" => cmdq[c] = <<>> /\ pend[c] = {})
+  /\ \A c \in DOMAIN cst : cst[c] # "closing" /\ ~Busy(c) /\ (cst[c] = "live" => cmdq[c] = <<>> /\ pend[c] = {})
 
 MonOK == mon.bad = ""
 QuiesceOK == (Quiescent /\ ~dead) => MonQuiesce(mon).bad = ""
